@@ -119,7 +119,7 @@ class TLCResult:
         self.violated += re.findall(r"Action property (\w+) is violated", out)
         self.finished = "Model checking completed" in out or "Finished in" in out
         self.error = None
-        if "Temporal properties were violated" in out:
+        if "Temporal properties were violated" in out or re.search(r"Temporal property \w+ was violated", out):
             self.violated.append("Termination")
         if rc != 0 and not self.violated:
             em = re.search(r"Error: (.*)", out)
